@@ -64,6 +64,34 @@ def match_finding(findings, prop, ob):
     return None
 
 
+def cross_check(sample):
+    """re-decide a sample of obligations with cvc5 1.0.3 and z3 4.8.12 through SMT-LIB2 (thorough tier).  The export is the
+    stage-1 query (hypotheses + negated goal, quantifiers intact): `unsat` from another solver confirms a proof,
+    `sat` would contradict it (reported as a disagreement => exit 3); `unknown`/timeout says nothing."""
+    import tempfile
+
+    out = {"sampled": len(sample), "cvc5": {"unsat": 0, "sat": 0, "unknown": 0}, "z3-4.8.12": {"unsat": 0, "sat": 0, "unknown": 0}, "disagreements": []}
+    tmp = tempfile.mkdtemp(prefix="xcheck_")
+    try:
+        for k, o in enumerate(sample[:60]):
+            fn = os.path.join(tmp, f"q{k}.smt2")
+            open(fn, "w").write("(set-logic ALL)\n" + o["smt2"] + "\n")
+            for solver, cmd in (("cvc5", f"/usr/bin/cvc5 --tlimit=8000 {fn}"), ("z3-4.8.12", f"/usr/bin/z3 -T:8 {fn}")):
+                code, txt = sh(cmd, timeout=20)
+                first = (txt.strip().splitlines() or ["unknown"])[0].strip()
+                v = first if first in ("sat", "unsat") else "unknown"
+                out[solver][v] += 1
+                if (v == "sat" and o["verdict"] == "proved"):
+                    out["disagreements"].append({"obligation": o["name"], "solver": solver})
+    finally:
+        import shutil
+
+        shutil.rmtree(tmp, ignore_errors=True)
+    for o in sample:
+        o.pop("smt2", None)
+    return out
+
+
 def main() -> int:
     ap = argparse.ArgumentParser()
     ap.add_argument("prop")
@@ -73,6 +101,8 @@ def main() -> int:
     prop, tier = args.prop, args.tier
     seed = int(os.environ.get("VERIF_SEED", "0") or 0)
     t0 = time.time()
+    if tier == "thorough":
+        os.environ.setdefault("VERIF_SMT2_SAMPLE_MOD", "8")
     units = [u for u in load_units() if prop in u.props]
     if not units and prop not in getattr(registry_mod(), "NATIVE_SOURCES", {}):
         print(f"no unit carries obligations of {prop}")
@@ -191,6 +221,7 @@ def main() -> int:
         from replay import driver
 
         extras["known_finding_replays"] = driver.rerun_known(findings, prop)
+        extras["cross_check"] = cross_check([o for o in obls if o.get("smt2")])
         extras["bounded_monitor"] = driver.bounded_monitor(prop, seed)
     # ---- report ------------------------------------------------------------------------------------------
     for fid, (f, os_) in sorted(known_hits.items()):
@@ -253,6 +284,7 @@ def main() -> int:
             "bounded_fallback": bounded_fallback,
             "bounded_parts": extras.get("bounded_monitor", {"note": "the bounded monitor runs in the thorough tier only; it is never counted towards `discharged`"}),
             "known_finding_replays": extras.get("known_finding_replays", []),
+            "cross_check_other_solvers": extras.get("cross_check", {"note": "thorough tier only"}),
         },
         "assumptions": trusted + registry.ASSUMED_CONTRACTS,
         "wall_s": wall,
@@ -264,7 +296,7 @@ def main() -> int:
           f"{len(still_unknown)} undecided, {len(units)} units, {wall}s")
     if violations:
         return 1
-    if crashed:
+    if crashed or extras.get("cross_check", {}).get("disagreements"):
         return 3
     if undecided_units or still_unknown or vacuous:
         return 2
